@@ -141,7 +141,7 @@ def run(ctx):
                 'edge, each mid-bin, last edge, above} for linear and log bin sets with 1..4 bins: every assignment for '
                 '<= 2 cells, random larger arrays; energy+amplitude, dense+sparse+1-D; non-trivial = has an out-of-range '
                 'or an on-edge frequency')
-    ctx.proof(extra=['props/Prop_Tie_Spectra.v'])  # translation tie: program regenerated from the source + refinement theorems
+    ctx.proof(extra=['props/Prop_Tie_Spectra.v', 'props/Prop_Tie_Misc.v'])  # translation tie: program regenerated from the source + refinement theorems
     cases = gen_cases(ctx)
     ctx.exhaustive = True
     mh = ctx.model_hashes(IMPORTS, [lit(c) for c in cases], EXPR, shard=300)
